@@ -22,8 +22,8 @@ ASSUMPTIONS = ['RandomPlay uses the global random module; it is seeded from a Hy
 
 
 def plan(tier):
-    a, pa = (6, 2500) if tier == 'quick' else (8, 150000)
-    b, pb = (10, 150) if tier == 'quick' else (16, 3000)
+    a, pa = (6, 10000) if tier == 'quick' else (8, 150000)
+    b, pb = (10, 500) if tier == 'quick' else (16, 3000)
     return [{'kind': 'static', 'n': pa} for _ in range(a)] + [{'kind': 'boards', 'n': pb} for _ in range(b)]
 
 
